@@ -55,7 +55,10 @@ def run(tier, seed):
     for i in range(3 if tier == "quick" else 12):
         t = os.path.join(rd, "limitstorm_%d.ndjson" % i)
         rc, so, se = v.run_cmd([fxv, "conc", "--mode", "limitstorm", "--out", t, "--seed", str(rng.randrange(1 << 30)),
-                                "--threads", str([8, 6, 12][i % 3]), "--millis", "1500" if tier == "quick" else "4000"], timeout=120)
+                                "--threads", str([8, 6, 12][i % 3]), "--millis", "1500" if tier == "quick" else "4000",
+                                # every second storm: some threads keep asking for replacements that never fit (refused
+                                # compare-and-swap / overwrite / patch): a refusal must not move the usage at all
+                                "--growers", str([0, 3, 2][i % 3])], timeout=120)
         info = {}
         for line in so.splitlines():
             try:
